@@ -19,3 +19,4 @@ def check(rep, tier):
     rep.run(_rs.run_adjoint_helpers, rep, tier)     # E3: second-order rules of dot / tensordot (the adjoint helpers' own VJPs), symbolic sizes
     rep.run(_rs.run_fft, rep, tier)         # E3 over autograd/numpy/fft.py: symbolic array sizes and transform lengths
     rep.run(_rs.run_scipy_special, rep, tier)   # E3 over autograd/scipy/special.py: broadcasting argument patterns, logsumexp axis forms
+    rep.run(_rs.run_elementwise_modules, rep, tier)   # E3 over autograd/scipy/stats/*.py (element-wise distributions): broadcasting argument patterns
